@@ -86,6 +86,10 @@ class Code3(Code2):
             self.check()
         return
 
+    # Line increments in co_lnotab are signed bytes from Python 3.6 on.
+    # Code3 serves 3.0 .. 3.7, so it can only assume the older, unsigned form.
+    lnotab_signed = False
+
     def encode_lineno_tab(self):
         co_lnotab = b""
 
@@ -94,17 +98,27 @@ class Code3(Code2):
         for offset, line_number in self.co_lnotab:
             offset_diff = offset - prev_offset
             line_diff = line_number - prev_line_number
+            if line_diff < 0 and not self.lnotab_signed:
+                # FIXME: should warn about dropping off a line number
+                continue
             prev_offset = offset
             prev_line_number = line_number
             while offset_diff >= 256:
                 co_lnotab += bytearray([255, 0])
                 offset_diff -= 255
-            while line_diff >= 256:
-                co_lnotab += bytearray([0, 255])
-                line_diff -= 255
-            if 0 <= line_diff <= 256:
-                # FIXME: should warn about dropping off a line number
-                co_lnotab += bytearray([offset_diff, line_diff])
+            # Increments of at most 127 read the same as unsigned (before 3.6)
+            # and as signed (3.6 and later) bytes. The address increment goes
+            # with the first pair: a line increment applies after the address
+            # has advanced.
+            while line_diff > 127:
+                co_lnotab += bytearray([offset_diff, 127])
+                offset_diff = 0
+                line_diff -= 127
+            while line_diff < -128:
+                co_lnotab += bytearray([offset_diff, 0x80])
+                offset_diff = 0
+                line_diff += 128
+            co_lnotab += bytearray([offset_diff, line_diff & 0xFF])
 
         self.co_lnotab = co_lnotab
 
